@@ -145,6 +145,26 @@ def run(ctx):
         ok = rp.get('reference_prove') == 'ok' and rp.get('library_verify') == 'ok' and rp.get('masks') == [rp.get('expected_mask')] and rp.get('len') == 1 + 32 * (5 + x + 2 * ((n * m).bit_length() - 1))
         ctx.expect(ok, 'C19:reference-prover', 'n%d m%d x%d: a proof made by the independent paper-form prover is not accepted / its mask not recovered by the library: %s' % (n, m, x, str(rp)[:200]),
                    cfg, 'reference_prover_rejected')
+    # the library's own proofs are, byte for byte, those of the documented nonce derivation when the external RNG is stuck (refimpl::reference_prove_documented:
+    # witness-keyed transcript RNG rebuilt after every prover message, Blake2b seed nonces), also for the identity commitment (value 0, zero mask)
+    n_doc = 0
+    for (n, m, cap, x, seeded, extra) in ([(8, 1, 1, 1, False, {}), (8, 1, 2, 3, True, {}), (4, 4, 4, 2, False, {}), (2, 2, 4, 6, False, {}), (64, 1, 1, 1, True, {}),
+                                           (8, 1, 1, 2, True, {'values': ['0'], 'zero_blindings': True}), (4, 2, 2, 1, False, {'values': ['0', '3'], 'zero_blindings_at': [0]})]):
+        for rng in ('zero', 'const'):
+            mem = dict({'m': m, 'cap': cap, 'seeded': seeded, 'rng': rng}, **extra)
+            if not extra:
+                mem['promises'] = ['1'] + [None] * (m - 1)
+            cfg = {'scenario': 'batch', 'n': n, 'x': x, 'members': [mem], 'documented_prover': True}
+            o = run_replay(cfg, ctx.seed)
+            n_doc += 1
+            d = (o.get('documented') or [{}])[0] if 'crash' not in o else {}
+            if 'crash' not in o and any(p_.get('result') != 'ok' for p_ in (o.get('prove') or [])):
+                hc = {'scenario': 'batch', 'n': n, 'x': x, 'members': [mem], 'actions': ['VerifyOnly', 'RecoverAndVerify']}
+                ctx.expect(False, 'C19:prover-refuses', 'n%d m%d c%d x%d%s: the prover refuses a statement that is valid in the released protocol: %s' % (
+                    n, m, cap, x, ' seeded' if seeded else '', str(o['prove'][0].get('result'))[:160]), hc, 'honest_rejected', {'replay_cfg': hc})
+                continue
+            ctx.expect(d.get('documented_equal') is True, 'C19:prover-bytes', 'n%d m%d c%d x%d%s rng=%s: the library\'s proof is not byte for byte the proof of the documented derivation (%s; prover: %s)' % (
+                n, m, cap, x, ' seeded' if seeded else '', rng, {k: v for k, v in d.items()}, str((o.get('prove') or o.get('crash') or [''])[0])[:120]), cfg, 'prover_deviates', {'replay_cfg': cfg})
     for (n, cap, x) in [(8, 4, 6), (64, 2, 1)]:
         fg = Finding('C19', 'C19:generators', 'generators differ from the documented derivation', {'scenario': 'gens', 'n': n, 'cap': cap, 'x': x}, 'generators_mismatch', {})
         bad, det = replaypreds.generators_mismatch(fg)
@@ -154,7 +174,7 @@ def run(ctx):
             ctx.findings.append(fg)
         else:
             ctx.struct_ok += 1
-    ctx.extra['concrete_part'] = {'recorded_vectors': 16, 'reference_verifier_runs': n_ref, 'reference_prover_runs': n_refp, 'reference_generator_sets': 2, 'seconds': round(time.time() - t0, 1),
+    ctx.extra['concrete_part'] = {'recorded_vectors': 16, 'reference_verifier_runs': n_ref, 'reference_prover_runs': n_refp, 'documented_prover_byte_comparisons': n_doc, 'reference_generator_sets': 2, 'seconds': round(time.time() - t0, 1),
                                   'note': 'these are concrete executions on the real crates (not solver-decided): recorded proofs/masks of the pinned tree, verdict agreement with the independent unoptimised verifier '
                                           '(symx/src/refimpl.rs), generator bytes against an independent SHAKE256/SHA3-512 derivation'}
     bounds = {'layout (Engine S)': 'lattice without n*m=1; all absorbed contents symbolic', 'concrete': 'as listed under concrete_part'}
